@@ -2,6 +2,8 @@ package rules
 
 import (
 	"fmt"
+	"go/token"
+	"go/types"
 	"strings"
 
 	"golang.org/x/tools/go/ssa"
@@ -15,7 +17,7 @@ func init() {
 		ID:    "C17",
 		Title: "A cluster answers like a standalone node; part transfer is exact",
 		Decides: "(transfer half only) on the receiver every hand-over of chunk bytes to a part handler, and every advance of an expected-chunk counter, happens only on the checksum-match outcome — a chunk answered with a rejection status must not count as progress; sender and receiver compute the checksum the same way; only processExpectedChunk drives the handlers and it is entered only for the expected index; " +
-			"a received part is introduced only by FinishSync, after its metadata is written, and an abnormal end of the stream (deferred cleanup) can close but never finalize a part; Close of an unfinished context removes the partial directory and releases the segment; the sender reports failed parts with the same id format on the initial and the retry path and sends the sync introduction only after the transfer succeeded.",
+			"a received part is introduced only by FinishSync, after its metadata is written, and an abnormal end of the stream (deferred cleanup) can close but never finalize a part; Close of an unfinished context removes the partial directory and releases the segment; the sender reports failed parts with the same id format on the initial and the retry path and sends the sync introduction only after the transfer succeeded; the liaison's mem-part merge empties its group accumulator whenever the segment id changes (parts of two time segments are never merged into one shipped part).",
 		NotDecided: "cluster/standalone query equivalence, shard/segment attribution of rows end to end, receiver restarts, idempotence of re-processing after SERVER_BUSY.",
 		Technique:  "guarded-call / world pruning on the checksum comparison, interprocedural acceptance summary over status constants, who-may-call, static reachability from deferred cleanup, sibling agreement of formatting callees",
 		Run:        runC17,
@@ -284,7 +286,7 @@ func runC17(c *core.Ctx) {
 			path := []string{ssax.FuncName(root)}
 			bad := finish(root)
 			if !bad {
-				if p := staticReach(root, finish, func(g *ssa.Function) bool { return g.Pkg != nil && ssax.Short(g.Pkg.Pkg.Path()) == sub }); p != nil {
+				if p := r.reach(root, finish, func(g *ssa.Function) bool { return g.Pkg != nil && ssax.Short(g.Pkg.Pkg.Path()) == sub }); p != nil {
 					bad, path = true, p
 				}
 			}
@@ -374,6 +376,99 @@ func runC17(c *core.Ctx) {
 			ok = ok && g
 		}
 		r.Check(ok, rule, construct, r.pos(exec[0]), "the parts are removed from the sender's snapshot only on the err == nil outcome of the transfer")
+	}
+
+	// the liaison merges mem parts per time segment: the group accumulator is emptied whenever the segment
+	// id changes, before the first part of the next segment is added
+	for _, s := range sibsMST {
+		rule := "c17.mem-merge-per-segment"
+		f := r.fn(rule, s.pkg, "(*tsTable).mergeMemParts")
+		if f == nil {
+			continue
+		}
+		// the accumulator: a local []*partWrapper cell that is appended to
+		var cell *ssa.Alloc
+		for _, b := range f.Blocks {
+			for _, in := range b.Instrs {
+				al, ok := in.(*ssa.Alloc)
+				if !ok {
+					continue
+				}
+				if sl, ok := al.Type().(*types.Pointer).Elem().Underlying().(*types.Slice); ok && strings.HasSuffix(sl.Elem().String(), ".partWrapper") {
+					cell = al
+				}
+			}
+		}
+		construct := ssax.FuncName(f) + ": group accumulator reset between segments"
+		if cell == nil {
+			r.Undecide(rule, construct, r.fpos(f), "no []*partWrapper accumulator cell found")
+			continue
+		}
+		fromCell := func(v ssa.Value) bool {
+			l, ok := v.(*ssa.UnOp)
+			return ok && l.Op == token.MUL && l.X == cell
+		}
+		isAppendStore := func(in ssa.Instruction) bool {
+			st, ok := in.(*ssa.Store)
+			if !ok || st.Addr != cell {
+				return false
+			}
+			c, ok := st.Val.(*ssa.Call)
+			if !ok {
+				return false
+			}
+			b, ok := c.Call.Value.(*ssa.Builtin)
+			return ok && b.Name() == "append" && fromCell(c.Call.Args[0])
+		}
+		isResetStore := func(in ssa.Instruction) bool {
+			st, ok := in.(*ssa.Store)
+			if !ok || st.Addr != cell {
+				return false
+			}
+			switch x := st.Val.(type) {
+			case *ssa.Slice:
+				k, ok := x.High.(*ssa.Const)
+				return ok && k.Value != nil && k.Int64() == 0
+			case *ssa.Const:
+				return x.Value == nil
+			case *ssa.MakeSlice:
+				return true
+			}
+			return false
+		}
+		n, bad := 0, false
+		for _, b := range f.Blocks {
+			iff, ok := b.Instrs[len(b.Instrs)-1].(*ssa.If)
+			if !ok {
+				continue
+			}
+			bo, ok := iff.Cond.(*ssa.BinOp)
+			if !ok || bo.Op != token.NEQ && bo.Op != token.EQL || !condReadsField(bo, "segmentID", 0) {
+				continue
+			}
+			if k, ok := bo.Y.(*ssa.Const); ok && k.Value != nil {
+				continue // comparison with a constant (the "no segment yet" test)
+			}
+			differs := b.Succs[0]
+			if bo.Op == token.EQL {
+				differs = b.Succs[1]
+			}
+			n++
+			first := differs.Instrs[0]
+			if isResetStore(first) {
+				continue
+			}
+			if tgt, path, found := (ssax.Search{Target: isAppendStore, Avoid: isResetStore}).From(f, first); found || isAppendStore(first) {
+				bad = true
+				r.Violate(rule, construct, r.pos(iff), fmt.Sprintf("after the segment id is found to differ (%s) the next part is appended at %s (blocks %s) without the accumulator having been emptied: mem parts of two time segments are merged into one part, which the data node installs into a single segment", r.pos(iff), r.pos(tgt), blocksStr(path)))
+			}
+		}
+		switch {
+		case n == 0:
+			r.Undecide(rule, construct, r.fpos(f), "no comparison of segment ids found")
+		case !bad:
+			r.Hold(rule, construct, r.fpos(f), fmt.Sprintf("%d segment-change test(s)", n))
+		}
 	}
 }
 
